@@ -3,28 +3,12 @@
 package knx
 
 import (
-	"time"
-
-	"github.com/vapourismo/knx-go/knx/cemi"
 	"github.com/vapourismo/knx-go/knx/knxnet"
 )
 
 func init() {
 	verifHarnesses["HarnessC04Step"] = HarnessC04Step
-	verifHarnesses["HarnessC04Stream"] = HarnessC04Stream
 }
-
-func vTunnel(sock *vSock, tcp bool) *Tunnel {
-	return &Tunnel{
-		sock:    sock,
-		config:  TunnelConfig{ResendInterval: 2 * time.Second, HeartbeatInterval: 100 * time.Second, ResponseTimeout: 5 * time.Second, UseTCP: tcp},
-		ack:     make(chan *knxnet.TunnelRes),
-		inbound: make(chan cemi.Message),
-		done:    make(chan struct{}),
-	}
-}
-
-var c04Msgs = [4]cemi.Message{&cemi.LDataInd{}, &cemi.LDataInd{}, &cemi.LDataInd{}, &cemi.LDataInd{}}
 
 // HarnessC04Step: a = {tcp, consumer ready, socket send fails}. One real handleTunnelReq step
 // from an arbitrary receiver state: expected number e, connection channel c, request
@@ -94,83 +78,4 @@ func HarnessC04Step(a []int) {
 	} else {
 		verifAssert("C04.no_ack", len(sock.log) == 0)
 	}
-}
-
-// HarnessC04Stream: a = {K, tcp, reader mode 0 always / 1 late}: the real process() goroutine of a
-// fresh connection epoch fed with K tunnelling requests of symbolic channel and sequence
-// number; deliveries and acknowledgements are compared with the protocol rule, the expected
-// number starting at 0.
-func HarnessC04Stream(a []int) {
-	K, tcp, late := a[0], a[1] == 1, a[2] == 1
-	sock := newVSock()
-	conn := vTunnel(sock, tcp)
-	c := nondetU8()
-	conn.channel = c
-	got := []cemi.Message{}
-	reader := func() {
-		verifDaemon()
-		for m := range conn.inbound {
-			got = append(got, m)
-		}
-	}
-	if !late {
-		go reader()
-	}
-	finished := make(chan error)
-	go func() { finished <- conn.process() }()
-	var e uint8
-	wantDeliver := []cemi.Message{}
-	wantAcks := 0
-	for i := 0; i < K; i++ {
-		req := &knxnet.TunnelReq{Channel: nondetU8(), SeqNumber: nondetU8(), Payload: c04Msgs[i]}
-		sock.in <- req
-		verifQuiesce()
-		nAck := len(sock.log)
-		switch {
-		case req.Channel != c:
-			verifAssert("C04.stream.foreign_ignored", nAck == wantAcks)
-		case tcp:
-			wantDeliver = append(wantDeliver, req.Payload)
-			verifAssert("C04.stream.tcp_no_ack", nAck == 0)
-		case req.SeqNumber == e:
-			verifCover("C04.stream.accepted")
-			wantDeliver = append(wantDeliver, req.Payload)
-			e++
-			wantAcks++
-			verifAssert("C04.stream.ack", nAck == wantAcks)
-			res, ok := sock.log[nAck-1].(*knxnet.TunnelRes)
-			verifAssert("C04.stream.ack_fields", ok && res.Channel == c && res.SeqNumber == req.SeqNumber && res.Status == 0)
-		case req.SeqNumber == e-1:
-			verifCover("C04.stream.repeated")
-			wantAcks++
-			verifAssert("C04.stream.reack", nAck == wantAcks)
-			res, ok := sock.log[nAck-1].(*knxnet.TunnelRes)
-			verifAssert("C04.stream.ack_fields", ok && res.Channel == c && res.SeqNumber == req.SeqNumber && res.Status == 0)
-		default:
-			verifAssert("C04.stream.out_of_sequence_ignored", nAck == wantAcks)
-		}
-	}
-	if late {
-		close(conn.done) // keep the heartbeat out of the picture while time passes
-		verifSleep(int64(20 * conn.config.ResponseTimeout))
-		go reader()
-	}
-	verifQuiesce()
-	verifAssert("C04.stream.delivered_count", len(got) == len(wantDeliver))
-	// exactly-once: the multiset of delivered telegrams equals the accepted ones (order is C17)
-	for _, w := range wantDeliver {
-		n := 0
-		for _, g := range got {
-			if g == w {
-				n++
-			}
-		}
-		verifAssert("C04.stream.exactly_once", n == 1)
-	}
-	if !late {
-		close(conn.done)
-	}
-	err := <-finished
-	verifAssert("C04.stream.process_ends", err == nil)
-	verifCover("C04.stream.end")
 }
